@@ -91,8 +91,17 @@ def correspond(ctx):
         size = ctx.rng.randint(3, ctx.n(22, 60)) if r < 0.9 else ctx.rng.randint(40, ctx.n(60, 200))
         cases.append(cc.gen_prog(ctx.rng, size, demand=ctx.rng.random() < 0.5, wf=ctx.rng.random() < 0.6,
                                  invalid=0.25 if k % 7 == 0 else 0.0))
+    # boundaries: a few definitions with hundreds of units and constants in every tier
+    for size in ctx.n((70, 110), (150, 260)):
+        cases.append(cc.gen_prog(ctx.rng, size, demand=False, wf=True))
     res = ctx.impl('c01_build', {'cases': cases}, timeout=900)
     out = res['out']
+    for p_, d_ in zip(cases, out):
+        if d_.get('inconsistent'):
+            c.failures.append(Failure('correspondence', 'the built definition is inconsistent with itself (what the writer uses vs the unit objects): %s'
+                                      % d_['inconsistent'], replay={'prog': p_, 'impl': d_}, found_input=True, signature='C01:inconsistent-indices',
+                                      theorem='topo_sort_correct'))
+            break
     if res.get('catalogue_bad'):
         c.failures.append(Failure('correspondence', 'UGen catalogue facts no longer hold for the real classes: %s' % res['catalogue_bad'],
                                   replay={'catalogue': res['catalogue_bad']}))
